@@ -3,6 +3,7 @@
 From NW Require Import Base.Bytes Model.SchemaTypes Gen.Schema Model.Codec Model.MsgInfo Model.Ids Model.Server.
 From NW Require Import Proofs.ServerLib Proofs.ServerRoute Proofs.ServerHandlers Proofs.ServerSteps Proofs.ServerPhases.
 From NW Require Import Proofs.ServerInvBase Proofs.ServerInv Proofs.ServerUniq Proofs.ServerInvCor Proofs.ServerLimits.
+From NW Require Import Proofs.ServerChanCount.
 
 Theorem C14_limits_every_reachable_state :
   forall (cfg : scfg) (ops : list op),
@@ -126,3 +127,38 @@ Theorem C14_capacity_not_invariant_after_config_change :
        alookup (bs "room") (chans s) = Some ch /\
        Datatypes.length (ch_members ch) = 2%nat /\ ch_max_clients ch = 1).
 Proof. exact C14_capacity_not_invariant. Qed.
+
+Theorem C14_channel_limit :
+  forall (cfg : scfg) (ops : list op),
+    N.of_nat (Datatypes.length (chans (run_state cfg init ops))) <= max_channels cfg.
+Proof. exact chan_count_reachable. Qed.
+
+Theorem C14_channel_created_only_with_room :
+  forall (cfg : scfg) (h : N) (m : msg) (p : option (list N)) (c : ctx) (hd : str),
+    alookup hd (chans (st c)) = None ->
+    alookup hd (chans (st (on_frame cfg h m p c))) <> None ->
+    N.of_nat (Datatypes.length (chans (st c))) < max_channels cfg.
+Proof. exact chan_created_only_below_limit_frame. Qed.
+
+Theorem C14_channel_slot_released :
+  forall (cfg : scfg) (ops : list op) (hd : str) (ch : chan),
+    alookup hd (chans (run_state cfg init ops)) = Some ch -> ch_members ch <> [].
+Proof. exact no_empty_channel_reachable. Qed.
+
+Theorem C14_channel_limit_example :
+  max_channels chan1_cfg = 1 /\
+    ops_ok chan1_cfg init chan1_ops_all /\
+    map fst (chans (run_state chan1_cfg init chan1_ops_a)) = [bs "a"] /\
+    last (run chan1_cfg init chan1_ops_refused) [] =
+    [OSend 1 (err_msg (Some 2) "SERVER_OVERLOADED") None] /\
+    run_state chan1_cfg init chan1_ops_refused = run_state chan1_cfg init chan1_ops_a /\
+    last (run chan1_cfg init chan1_ops_left) [] =
+    [OSend 1 (build "LEAVE_ACK" [(bs "id", VNum 3)]) None] /\
+    chans (run_state chan1_cfg init chan1_ops_left) = [] /\
+    last (run chan1_cfg init chan1_ops_all) [] =
+    [OSend 1 (build "JOIN_ACK" [(bs "id", VNum 4); (bs "channel", VStr (bs "!b@localhost"))])
+       None] /\
+    map fst (chans (run_state chan1_cfg init chan1_ops_all)) = [bs "b"] /\
+    N.of_nat (Datatypes.length (chans (run_state chan1_cfg init chan1_ops_all))) =
+    max_channels chan1_cfg.
+Proof. exact chan_limit_example. Qed.
